@@ -206,9 +206,15 @@ def shard_motion(arg):
 def shard_crop(arg):
     from evo.core.trajectory import TrajectoryException
     acc = Acc()
-    for n in arg:
+    for n, order in arg:
         Rs, ps, ts = tagged(n, t0=1.0, dt=0.5)
-        grid = [None, 0.0, 0.75] + ts + [ts[-1] + 0.25, 100.0]
+        if order == "disordered" and n >= 3:
+            # a block of poses logged late: the statement "keeps exactly the
+            # poses with start <= t <= end" does not depend on the order
+            ts = ts[n // 2:] + ts[:n // 2]
+        elif order == "negative":
+            ts = [t - 3.0 for t in ts]  # stamps around zero
+        grid = [None, 0.0, 0.75] + sorted(ts) + [max(ts) + 0.25, 100.0]
         for start in grid:
             for end in grid:
                 for mode in MODES[:2] if n > 3 else MODES:
@@ -216,7 +222,7 @@ def shard_crop(arg):
                     s = ts[0] if start is None else start
                     e = ts[-1] if end is None else end
                     case = {"op": "crop", "n": n, "start": start, "end": end,
-                            "mode": mode}
+                            "mode": mode, "order": order}
                     msgs = []
                     try:
                         t.reduce_to_time_range(start, end)
@@ -407,7 +413,8 @@ def run(ctx):
         itertools.product(range(3), range(3)), repeat=k)]
     acc.merge(pmap_acc(ctx, __name__, "shard_motion", shard(mseqs, 64)))
     acc.merge(pmap_acc(ctx, __name__, "shard_crop",
-                       [[n] for n in range(1, 7)]))
+                       [[(n, o)] for n in range(1, 7)
+                        for o in ("sorted", "disordered", "negative")]))
     sl = ctx.pick(3, 4)
     sseqs = [s for k in range(1, sl + 1) for s in itertools.product(
         itertools.product(range(len(GAP_T)), range(len(GAP_D))), repeat=k)]
@@ -446,5 +453,5 @@ def replay(part, case):
     if part == "downsample":
         a = shard_downsample([case["count"]])
     else:
-        a = shard_crop([case["n"]])
+        a = shard_crop([(case["n"], case.get("order", "sorted"))])
     return [v["msg"] for v in a.violations if v["case"] == case]
